@@ -14,6 +14,23 @@ inductive Strand where
   | plus | minus | unstranded
   deriving DecidableEq, Repr, Inhabited
 
+/-- `inscripta.biocantor.gene.cds_frame.CDSFrame` (values -1, 0, 1, 2) -/
+inductive CDSFrame where
+  | NONE | ZERO | ONE | TWO
+  deriving DecidableEq, Repr, Inhabited
+
+/-- `inscripta.biocantor.gene.cds_frame.CDSPhase` (values -1, 0, 1, 2) -/
+inductive CDSPhase where
+  | NONE | ZERO | ONE | TWO
+  deriving DecidableEq, Repr, Inhabited
+
+def CDSFrame.value : CDSFrame → Int
+  | .NONE => -1 | .ZERO => 0 | .ONE => 1 | .TWO => 2
+def CDSPhase.value : CDSPhase → Int
+  | .NONE => -1 | .ZERO => 0 | .ONE => 1 | .TWO => 2
+def Strand.value : Strand → Int
+  | .plus => 1 | .minus => -1 | .unstranded => 0
+
 /-- Exception classes the library documents.  There is deliberately no "internal error"
     constructor: the model cannot produce AttributeError/IndexError/KeyError/RecursionError. -/
 inductive Err where
@@ -89,8 +106,8 @@ def nonOverlap : List Blk → Bool
 def Loc.NonOverlap (l : Loc) : Prop := nonOverlap l.blocks = true
 instance (l : Loc) : Decidable l.NonOverlap := by unfold Loc.NonOverlap; infer_instance
 
-/-- Python `//` and `%` on ints are floor division; Lean `Int./` with positive divisor is `Int.div`
-    (T-rounding for `/`? no: `Int./` is `Int.div` = floor for positive divisors, `%` is `emod`). -/
+/-- Python `//` and `%` on ints are floor division / floor modulo; Lean's `Int./` and `%` are the
+    Euclidean pair, which coincides with Python for positive divisors (the translator refuses others). -/
 def pyMod (a b : Int) : Int := a % b
 def pyDiv (a b : Int) : Int := a / b
 
